@@ -190,3 +190,15 @@ Example C08_sound_sharing_needs_hyp :
   /\ apply_row ps 0 x <> apply_row ps 1 x.
 Proof. exact final_C08_sound_sharing_needs_hyp. Qed.
 Print Assumptions C08_sound_sharing_needs_hyp.
+
+(** the label token is the ParameterGenerator's own ([ParameterGenerator(ltoken=...)],
+    custom pgen): the default label KEY.<token> and every template are
+    instantiated by replacing THAT token; a template without it gives one
+    constant label (then rows collide: outside H8) *)
+Example C08_label_token :
+  labels_of (mkP (Str.s "N") [] [Str.s "1"; Str.s "2"] (LTK (Str.s "##") [])) = [Str.s "N.1"; Str.s "N.2"]
+  /\ labels_of (mkP (Str.s "N") [] [Str.s "1"; Str.s "2"] (LT [])) = [Str.s "N.1"; Str.s "N.2"]
+  /\ labels_of (mkP (Str.s "N") [] [Str.s "1"; Str.s "2"] (LTK (Str.s "##") (Str.s "n##-##"))) = [Str.s "n1-1"; Str.s "n2-2"]
+  /\ labels_of (mkP (Str.s "N") [] [Str.s "1"; Str.s "2"] (LTK (Str.s "##") (Str.s "n%%"))) = [Str.s "n%%"; Str.s "n%%"].
+Proof. exact final_C08_label_token. Qed.
+Print Assumptions C08_label_token.
